@@ -190,7 +190,7 @@ DirToFile(d, cell) ==
 \* ---- the user edits the index
 Stage(p) ==
     /\ "Stage" \in Acts /\ Tick
-    /\ \E q \in Covered(Paths, p) : wd[q] # NoCell \/ index[q] # NoCell
+    /\ wd[p] # NoCell \/ index[p] # NoCell \/ IsDir(wd, p)      \* p names something that is there or is tracked
     /\ StageOK(index, wd, Paths, p)
     /\ index' = StageOn(index, wd, Covered(Paths, p))
     /\ Step("Stage", p, NoPath, NoCell) /\ UNCHANGED <<head, wd>> /\ Observe
